@@ -34,6 +34,7 @@ DEFAULT_FEAT = {
     "wit_doms": ["comb", "sync", "av", "top"],
     "no_amb": False,  # reject designs with AMBIGUOUS transaction pairs (C07-C09)
     "max_depth": 3,
+    "p_datacond": 0.2,  # program-level: some If conditions inside method bodies are bits of the method's data_in
 }
 
 
@@ -65,6 +66,11 @@ class Gen:
     # ---------------------------------------------------------------------------------------
     def program(self):
         rng, f = self.rng, self.f
+        # conditions that depend on a method's data_in make call enables depend on the argument mux: only in
+        # programs without validate_arguments (the restriction of DESIGN.md 3.1)
+        self.datacond = self.chance(f["p_datacond"])
+        if self.datacond:
+            f = self.f = dict(f, p_val=0.0)
         nmeth = rng.randint(0 if rng.random() < 0.05 else 1, f["max_meth"])
         ntrans = rng.randint(1, f["max_trans"])
         nmods = rng.randint(1, f["max_mods"])
@@ -98,6 +104,19 @@ class Gen:
                 aliases.append({"id": aid, "target": md["id"], "via": rng.choice([None, None, "methods"])})
                 if self.chance(0.3):  # chain of aliases
                     aliases.append({"id": f"a{len(aliases)}", "target": aid, "via": None})
+        # Methods collections: several methods of one layout provided through one Methods(n).provide([...])
+        by_layout = {}
+        for md in methods:
+            by_layout.setdefault((md["iw"], md["ow"]), []).append(md["id"])
+        ngroup = 0
+        for lay in sorted(by_layout):
+            mids = by_layout[lay]
+            if len(mids) >= 2 and self.chance(f["p_alias"]):
+                take = rng.sample(mids, rng.randint(2, min(3, len(mids))))
+                for j, mid in enumerate(take):
+                    aliases.append({"id": f"a{len(aliases)}", "target": mid, "via": "methods", "group": f"g{ngroup}", "index": j,
+                                    "size": len(take)})
+                ngroup += 1
         self.aliases = aliases
         self.alias_of = {}
         for a in aliases:
@@ -260,12 +279,20 @@ class Gen:
                                allow_nested=allow_nested)
             acc |= u
             alts.append(body)
+        def cond1():
+            if getattr(self, "datacond", False) and in_method is not None and in_method["iw"] and self.chance(0.6):
+                return f"d:{in_method['id']}:{rng.randrange(in_method['iw'])}"
+            return self.inp()
+
         if kind == "If":
-            node = ["If", {"u": self.uid(), "arms": [[self.inp(), alts[k]] for k in range(nalt)],
+            node = ["If", {"u": self.uid(), "arms": [[cond1(), alts[k]] for k in range(nalt)],
                            "else": alts[nalt] if self.chance(0.6) else None}]
         elif kind == "Sw":
             vals = rng.sample(range(4), min(nalt, 3))
-            node = ["Sw", {"u": self.uid(), "test": self.inp(2), "cases": [[v, alts[k]] for k, v in enumerate(vals)],
+            test = self.inp(2)
+            if getattr(self, "datacond", False) and in_method is not None and in_method["iw"] >= 2 and self.chance(0.5):
+                test = f"d:{in_method['id']}:s"  # the two low bits of data_in
+            node = ["Sw", {"u": self.uid(), "test": test, "cases": [[v, alts[k]] for k, v in enumerate(vals)],
                            "default": alts[nalt] if self.chance(0.6) else None}]
         else:
             ns = max(2, nalt)
